@@ -99,6 +99,58 @@ func VerifH_C14_wholeWriterSinkFaults() {
 	vCover("fault")
 }
 
+// A sink that fails once and then works again (a transient error, or one short
+// write) must be noticed as well, unless the writer delivers the refused bytes
+// after all: a nil error means the sink holds the complete file.
+// Without the bufio layer nothing remembers the error, so every write site has
+// to report it itself. Configurations: two batches; one Write that crosses a
+// one-row row-group limit (the writer flushes row groups inside Write); bloom
+// filters deferred into a buffer pool (copied to the sink when the file closes).
+func VerifH_C14_transientSinkFaults() {
+	vUnwind(1 << 16)
+	rows := verifRowsH(false)
+	opts := []WriterOption{WriteBufferSize(0)}
+	config := vChoose("config", 0, 2)
+	switch config {
+	case 1:
+		opts = append(opts, MaxRowsPerRowGroup(1))
+	case 2:
+		opts = append(opts, BloomFilters(SplitBlockFilter(10, "name")), DeferBloomFiltersWithBuffers(NewBufferPool()))
+	}
+	write := func(sink io.Writer) (firstErr error) {
+		w := NewGenericWriter[verifRecH](sink, opts...)
+		note := func(err error) {
+			if err != nil && firstErr == nil {
+				firstErr = err
+			}
+		}
+		if config == 1 {
+			_, err := w.Write(rows) // crosses the row-group limit inside one call
+			note(err)
+		} else {
+			_, err := w.Write(rows[:1])
+			note(err)
+			_, err = w.Write(rows[1:])
+			note(err)
+		}
+		note(w.Close())
+		return firstErr
+	}
+	ref := new(bytes.Buffer)
+	if err := write(ref); err != nil {
+		vAssert(false, "reference run succeeds")
+		return
+	}
+	total := ref.Len()
+	sink := &verifSink{limit: vChoose("faultAt", 0, total-1), shortOnly: vChoose("shortWrite", 0, 1) == 1, transient: true, record: true}
+	err := write(sink)
+	vAssert(sink.refused, "the sink was asked for the refused byte")
+	// a writer may offer the refused bytes again (io.WriterTo loops do); what counts
+	// is that a nil error means the sink holds the complete file
+	vAssert(err != nil || bytes.Equal(sink.data, ref.Bytes()), "no error from Write and Close means the sink holds every byte of the complete file")
+	vCover("transient fault")
+}
+
 // C14.K2 on whole files: every strict prefix of a valid file is rejected by
 // OpenFile or by the first read that needs the missing bytes, and a failing or
 // short ReadAt surfaces as an error instead of missing or altered rows.
